@@ -260,14 +260,15 @@ def bceLossGradient (S : Mat α) (labels : List Nat) : Except PyErr (Mat α) :=
 
 /-! ### predictions (gnn_classifier.py, base.py) -/
 
+/-- one step of the scan for the first maximum: state = (best position, next position, best value) -/
+def argStep (st : Nat × Nat × α) (y : α) : Nat × Nat × α :=
+  if lt st.2.2 y then (st.2.1, st.2.1 + 1, y) else (st.1, st.2.1 + 1, st.2.2)
+
 /-- `row.argmax()`: first position of the maximum -/
 def argmax (l : List α) : Nat :=
   match l with
   | [] => 0
-  | x :: xs =>
-    (xs.foldl (fun (st : Nat × Nat × α) y =>
-      let (best, pos, m) := st
-      if lt m y then (pos, pos + 1, y) else (best, pos + 1, m)) (0, 1, x)).1
+  | x :: xs => (xs.foldl argStep (0, 1, x)).1
 
 /-- `GNNClassifier._compute_predictions(output)` -/
 def computePredictions (O : Mat α) : Except PyErr (List Nat) :=
